@@ -622,6 +622,9 @@ func (w *walker) cond(e *env, c ast.Expr) {
 			}
 		}
 	}
+	if w.kind == "reward" && w.inLoop && w.dupIdiom(e, c) {
+		return
+	}
 	s := unq(e.canon(c))
 	if w.kind == "reward" {
 		if w.inLoop {
@@ -713,6 +716,7 @@ func (w *walker) stmts(e *env, list []ast.Stmt) exit {
 					} else if _, isMap := vs.Type.(*ast.MapType); isMap {
 						w.seen["$SEEN_"+n.Name] = true
 						e.vars[n.Name] = "$SEEN_" + n.Name
+					} else if vs.Type != nil && w.emptySetOf(e, n.Name, vs.Type) {
 					} else if !strings.HasPrefix(e.vars[n.Name], "mut:") {
 						e.vars[n.Name] = "zero:" + src(vs.Type)
 					}
@@ -788,6 +792,25 @@ func isLogCall(cs string) bool {
 	return strings.HasPrefix(cs, "$ctx.Logger().") || strings.HasPrefix(cs, "$K.Logger($ctx).") || strings.HasPrefix(cs, "telemetry.")
 }
 
+// an empty collection of a named type of the package (a "set" the validator fills while it loops)
+func (w *walker) emptySetOf(e *env, name string, typ ast.Expr) bool {
+	id, ok := typ.(*ast.Ident)
+	if !ok {
+		return false
+	}
+	has := false
+	for k := range e.methods {
+		if strings.HasPrefix(k, id.Name+".") {
+			has = true
+		}
+	}
+	if !has || strings.HasPrefix(e.vars[name], "mut:") {
+		return false
+	}
+	e.vars[name] = "$SET:" + id.Name + ":" + name
+	return true
+}
+
 func (w *walker) define(e *env, name string, rhs ast.Expr) {
 	switch r := rhs.(type) {
 	case *ast.CallExpr:
@@ -797,6 +820,9 @@ func (w *walker) define(e *env, name string, rhs ast.Expr) {
 				e.vars[name] = "$SEEN_" + name
 				return
 			}
+			if (len(r.Args) == 1 || src(r.Args[1]) == "0") && w.emptySetOf(e, name, r.Args[0]) {
+				return
+			}
 		}
 	case *ast.CompositeLit:
 		if _, ok := r.Type.(*ast.MapType); ok && len(r.Elts) == 0 {
@@ -804,11 +830,216 @@ func (w *walker) define(e *env, name string, rhs ast.Expr) {
 			e.vars[name] = "$SEEN_" + name
 			return
 		}
+		if len(r.Elts) == 0 && r.Type != nil && w.emptySetOf(e, name, r.Type) {
+			return
+		}
 	}
 	e.bindVar(name, rhs)
 }
 
+// f(entries, d) bool  that answers "does one of entries have denomination d":
+//
+//	for j := range entries { if entries[j].Denom == d { return true } }; return false      (or `for _, x := range entries`)
+//
+// returns the positions of the slice and of the denomination parameter
+func membershipScan(f *fn) (int, int, bool) {
+	if f == nil || len(f.params) != 2 || f.body == nil || len(f.body.List) != 2 {
+		return 0, 0, false
+	}
+	r, ok := f.body.List[1].(*ast.ReturnStmt)
+	if !ok || len(r.Results) != 1 || src(r.Results[0]) != "false" {
+		return 0, 0, false
+	}
+	for si := 0; si < 2; si++ {
+		di := 1 - si
+		sl, d := f.params[si], f.params[di]
+		e := newEnv(nil, nil, nil, "")
+		e.vars[sl], e.vars[d] = "$S", "$D"
+		var body []ast.Stmt
+		switch l := f.body.List[0].(type) {
+		case *ast.RangeStmt:
+			if e.canon(l.X) != "$S" {
+				continue
+			}
+			if l.Key != nil && src(l.Key) != "_" {
+				e.vars[src(l.Key)] = "$J"
+			}
+			if l.Value != nil && src(l.Value) != "_" {
+				e.vars[src(l.Value)] = "$P"
+			}
+			body = l.Body.List
+		case *ast.ForStmt:
+			init, ok1 := l.Init.(*ast.AssignStmt)
+			post, ok2 := l.Post.(*ast.IncDecStmt)
+			if !ok1 || !ok2 || len(init.Lhs) != 1 || len(init.Rhs) != 1 || src(init.Rhs[0]) != "0" || post.Tok != token.INC || l.Cond == nil {
+				continue
+			}
+			iv := src(init.Lhs[0])
+			if unq(e.canon(l.Cond)) != iv+" < len($S)" || src(post.X) != iv {
+				continue
+			}
+			e.vars[iv] = "$J"
+			body = l.Body.List
+		default:
+			continue
+		}
+		if len(body) != 1 {
+			continue
+		}
+		is, ok := body[0].(*ast.IfStmt)
+		if !ok || is.Init != nil || is.Else != nil || len(is.Body.List) != 1 {
+			continue
+		}
+		rt, ok := is.Body.List[0].(*ast.ReturnStmt)
+		if !ok || len(rt.Results) != 1 || src(rt.Results[0]) != "true" {
+			continue
+		}
+		c := strings.ReplaceAll(unq(e.canon(is.Cond)), "$S[$J]", "$P")
+		if c == "$P.Denom == $D" || c == "$D == $P.Denom" {
+			return si, di, true
+		}
+	}
+	return 0, 0, false
+}
+
+// a method `insert(d) bool` of a set type that adds d unless it is already a member and reports whether it was added:
+// last statement `return true`, exactly one other return, `return false`, under a test that compares with d; d is stored
+func insertIfAbsent(f *fn) bool {
+	if f == nil || len(f.params) != 1 || f.body == nil || len(f.body.List) < 2 {
+		return false
+	}
+	d := f.params[0]
+	last, ok := f.body.List[len(f.body.List)-1].(*ast.ReturnStmt)
+	if !ok || len(last.Results) != 1 || src(last.Results[0]) != "true" {
+		return false
+	}
+	returns, falseUnderEq, stored := 0, false, false
+	var visit func(n ast.Node, underEq bool)
+	visit = func(n ast.Node, underEq bool) {
+		ast.Inspect(n, func(m ast.Node) bool {
+			switch x := m.(type) {
+			case *ast.FuncLit:
+				return false
+			case *ast.IfStmt:
+				eq := underEq
+				ast.Inspect(x.Cond, func(c ast.Node) bool {
+					if b, ok := c.(*ast.BinaryExpr); ok && b.Op == token.EQL && (src(b.X) == d || src(b.Y) == d) {
+						eq = true
+					}
+					return true
+				})
+				if x.Init != nil {
+					visit(x.Init, underEq)
+				}
+				visit(x.Body, eq)
+				if x.Else != nil {
+					visit(x.Else, underEq)
+				}
+				return false
+			case *ast.ReturnStmt:
+				returns++
+				if len(x.Results) == 1 && src(x.Results[0]) == "false" && underEq {
+					falseUnderEq = true
+				}
+			case *ast.AssignStmt:
+				for _, r := range x.Rhs {
+					if src(r) == d {
+						stored = true
+					}
+				}
+			case *ast.CallExpr:
+				if src(x.Fun) == "append" {
+					for _, a := range x.Args[1:] {
+						if src(a) == d {
+							stored = true
+						}
+					}
+				}
+			}
+			return true
+		})
+	}
+	visit(f.body, false)
+	return returns == 2 && falseUnderEq && stored
+}
+
+// "was this denomination seen among the earlier entries", spelled through a helper:
+//
+//	hasDenom($L[:$I], $C.Denom)           a membership scan of the prefix
+//	!set.insert($C.Denom)                 a set filled while looping (insert-if-absent reporting whether it inserted)
+func (w *walker) dupIdiom(e *env, c ast.Expr) bool {
+	neg := false
+	for {
+		if p, ok := c.(*ast.ParenExpr); ok {
+			c = p.X
+			continue
+		}
+		if u, ok := c.(*ast.UnaryExpr); ok && u.Op == token.NOT {
+			neg = !neg
+			c = u.X
+			continue
+		}
+		break
+	}
+	if id, ok := c.(*ast.Ident); ok { // a variable holding the result of the call
+		if pc := e.calls[e.vars[id.Name]]; pc != nil {
+			e, c = pc.e, pc.c
+		}
+	}
+	call, ok := c.(*ast.CallExpr)
+	if !ok {
+		return false
+	}
+	if !neg {
+		if f, _ := e.callee(call); f != nil && len(call.Args) == 2 {
+			if si, di, ok := membershipScan(f); ok {
+				sl, d := e.canon(call.Args[si]), e.canon(call.Args[di])
+				if (sl == "$L[:$I]" || sl == "$L[0:$I]") && d == "$C.Denom" {
+					w.emit("GDuplicate")
+					return true
+				}
+			}
+		}
+		return false
+	}
+	if sel, ok := call.Fun.(*ast.SelectorExpr); ok && len(call.Args) == 1 && e.canon(call.Args[0]) == "$C.Denom" {
+		r := e.canon(sel.X)
+		if strings.HasPrefix(r, "$SET:") {
+			typ := strings.SplitN(r, ":", 3)[1]
+			if insertIfAbsent(e.methods[typ+"."+sel.Sel.Name]) {
+				w.emit("GDuplicate")
+				return true
+			}
+		}
+	}
+	return false
+}
+
 func (w *walker) assignStmt(e *env, s *ast.AssignStmt) {
+	if len(s.Rhs) == len(s.Lhs) && len(s.Rhs) > 1 && s.Tok == token.DEFINE {
+		// a, b := x, y  (all right-hand sides are evaluated in the environment before the statement)
+		vals := make([]ast.Expr, len(s.Rhs))
+		copy(vals, s.Rhs)
+		e0 := e.fork()
+		for i, l := range s.Lhs {
+			id, ok := l.(*ast.Ident)
+			if !ok {
+				w.unknown(src(s))
+				return
+			}
+			if id.Name == "_" {
+				continue
+			}
+			if strings.HasPrefix(e.vars[id.Name], "mut:") {
+				continue
+			}
+			e.vars[id.Name] = e0.canon(vals[i])
+			if c, ok := vals[i].(*ast.CallExpr); ok {
+				e.calls[e.vars[id.Name]] = &pcall{e0, c}
+			}
+		}
+		return
+	}
 	if len(s.Rhs) != 1 {
 		w.unknown(src(s))
 		return
@@ -1568,6 +1799,8 @@ func paramPairs(f *ast.File, consts map[string]string, ftypes map[string]string)
 			if coqType(ftypes[field]) == "TCoins" {
 				val = "VRewards"
 				rewardValidator = v.Name
+			} else if fd := funcDecl(f, "", v.Name); fd != nil && fd.Body != nil && len(fd.Body.List) == 1 && isNilReturn(fd.Body.List[0]) {
+				val = "VAcceptAll"
 			} else {
 				val = "VOther " + coqStr(v.Name)
 			}
